@@ -1,0 +1,85 @@
+//go:build verif
+
+package NoKV
+
+import (
+	"fmt"
+
+	"github.com/feichai0017/NoKV/kv"
+)
+
+// Value-log accessors for the external verification harness (/verif, property
+// C08). Compiled only with -tags verif.
+
+// VerifVlogRecord is one record of a value-log file as Manager.Iterate decodes it.
+type VerifVlogRecord struct {
+	Offset    uint32
+	Len       uint32
+	Key       []byte // internal key
+	Value     []byte
+	Meta      byte
+	ExpiresAt uint64
+}
+
+// VerifVlogFile lists the records of one value-log file.
+type VerifVlogFile struct {
+	FID     uint32
+	Records []VerifVlogRecord
+}
+
+// VerifVlogBucket describes one value-log bucket: its files in fid order, the
+// active file and the write offset (Manager.Head).
+type VerifVlogBucket struct {
+	Bucket     uint32
+	ActiveFID  uint32
+	HeadOffset uint32
+	Files      []VerifVlogFile
+}
+
+// VerifVlogLayout dumps every bucket of the value log.
+func (db *DB) VerifVlogLayout() ([]VerifVlogBucket, error) {
+	var out []VerifVlogBucket
+	for b, mgr := range db.vlog.managers {
+		if mgr == nil {
+			continue
+		}
+		head := mgr.Head()
+		vb := VerifVlogBucket{Bucket: uint32(b), ActiveFID: head.Fid, HeadOffset: head.Offset}
+		for _, fid := range mgr.ListFIDs() {
+			vf := VerifVlogFile{FID: fid}
+			_, err := mgr.Iterate(fid, 0, func(e *kv.Entry, vp *kv.ValuePtr) error {
+				vf.Records = append(vf.Records, VerifVlogRecord{
+					Offset: vp.Offset, Len: vp.Len,
+					Key: kv.SafeCopy(nil, e.Key), Value: kv.SafeCopy(nil, e.Value),
+					Meta: e.Meta, ExpiresAt: e.ExpiresAt,
+				})
+				return nil
+			})
+			if err != nil {
+				return nil, fmt.Errorf("verif: iterate bucket %d fid %d: %w", b, fid, err)
+			}
+			vb.Files = append(vb.Files, vf)
+		}
+		out = append(out, vb)
+	}
+	return out, nil
+}
+
+// VerifRunGC runs valueLog.rewrite on one value-log file synchronously (the
+// step doRunGC takes once sampling decided to collect the file). The file must
+// not be the bucket's active file.
+func (db *DB) VerifRunGC(bucket, fid uint32) error {
+	mgr, err := db.vlog.managerFor(bucket)
+	if err != nil {
+		return err
+	}
+	if fid >= mgr.ActiveFID() {
+		return fmt.Errorf("verif: fid %d is not below the active fid %d of bucket %d", fid, mgr.ActiveFID(), bucket)
+	}
+	return db.vlog.rewrite(bucket, fid)
+}
+
+// VerifVlogBucketOf reports the bucket the write path routes an internal key to.
+func (db *DB) VerifVlogBucketOf(internalKey []byte) uint32 {
+	return db.vlog.bucketForEntry(&kv.Entry{Key: internalKey})
+}
